@@ -31,7 +31,7 @@ theorem date_valid_iff_constructible (v : DicomDate) :
     · rw [fromYmd_eq] at h; split at h <;> simp at h; subst h; assumption
 
 /-- every time value a constructor returns is valid, and every valid value is returned by one
-(`from_hms_milli`/`from_hms_micro` in their repaired, range-checking form) -/
+(`from_hms_milli`/`from_hms_micro` return valid values only, see `fromHmsMilli_valid`) -/
 theorem time_valid_iff_constructible (v : DicomTime) :
     v.Valid ↔ (∃ h, DicomTime.fromH h = some v) ∨ (∃ h m, DicomTime.fromHm h m = some v) ∨
       (∃ h m s, DicomTime.fromHms h m s = some v) ∨ (∃ h m s f fp, DicomTime.fromHmsf h m s f fp = some v) := by
@@ -58,7 +58,7 @@ theorem fromHmsMicro_eq (h m s us : Nat) :
       if us ≤ 999999 ∧ h ≤ 23 ∧ m ≤ 59 ∧ s ≤ 60 then some (.fraction h m s us 6) else none := by
   simp [DicomTime.fromHmsMicro, checkComponent, and_assoc]
 
-/-- the (repaired) millisecond / microsecond constructors return valid values only -/
+/-- the millisecond / microsecond constructors return valid values only (/repo fix 8fcd311) -/
 theorem fromHmsMilli_valid {h m s ms : Nat} {v : DicomTime} (e : DicomTime.fromHmsMilli h m s ms = some v) :
     v.Valid ∧ v = .fraction h m s ms 3 := by
   rw [fromHmsMilli_eq] at e
